@@ -307,7 +307,8 @@ from scen import Scenario
 def mod_map(items, info, env):
     """prefix -> module, read off the output: the module that holds the struct of a known component of that namespace"""
     mod_of_uri = {}
-    for fn, comp in info.subjects + getattr(info, 'anon', []) + getattr(info, 'simple', []):
+    derived_comps = [(fn, ct) for fn, ct, _b in getattr(info, 'derived', [])]
+    for fn, comp in info.subjects + getattr(info, 'anon', []) + getattr(info, 'simple', []) + derived_comps:
         sch = info.schemas[fn]
         uri = sch.tns
         if uri in mod_of_uri or not isinstance(uri, str):
@@ -317,7 +318,7 @@ def mod_map(items, info, env):
             continue
         first = None
         content = getattr(comp, 'content', None)
-        if content is not None and getattr(content, 'items', None):
+        if content is not None and getattr(content, 'items', None) and (fn, comp) not in derived_comps:
             f0 = content.items[0]
             first = getattr(f0, 'name', None) if isinstance(getattr(f0, 'name', None), str) else None
         for it in items:
@@ -761,7 +762,7 @@ def ns_prefix_map(items):
 
 def inherited_fields(env, info, fn, ct, mp):
     """expected field list of a complex type including everything inherited (reference semantics of xs:extension)"""
-    base = info.bases.get(ct.name)
+    base = info.bases[(fn, ct.name)] if (fn, ct.name) in info.bases else info.bases.get(ct.name)
     bf = []
     if base is not None:
         bfn, bct = base
@@ -774,21 +775,21 @@ def inherited_fields(env, info, fn, ct, mp):
 
 
 def extension_oracle(env, items, info, m):
-    mp, _ = mod_map(items, info, env)
+    mp, mod_of_uri = mod_map(items, info, env)
     out = []
     pm = ns_prefix_map(items)
     for fn, ct in info.subjects:
-        out += O.check_struct_members(env, items, info.schemas[fn], ct, ct.name, mp)
+        out += O.check_struct_members(env, items, info.schemas[fn], ct, ct.name, mp, module=mod_of_uri.get(info.schemas[fn].tns))
     for fn, ct, base in info.derived:
         sch = info.schemas[fn]
         bf = inherited_fields(env, info, base[0], base[1], mp)
-        checks = O.check_struct_members(env, items, sch, ct, ct.name, mp, base_fields=bf, tag=' (derived)')
+        checks = O.check_struct_members(env, items, sch, ct, ct.name, mp, base_fields=bf, tag=' (derived)', module=mod_of_uri.get(sch.tns))
         for c in checks:
             c.key = 'derived-' + c.key
         out += checks
         # members keep the namespace of the schema that declared them
         name = pascal(ct.name)
-        cands = O.find_structs(items, name, env.allowed)
+        cands = O.find_structs(items, name, env.allowed, mod_of_uri.get(sch.tns))
         if len(cands) == 1:
             st = cands[0]
             exp = getattr(st, 'expected', [])
@@ -811,11 +812,11 @@ def extension_oracle(env, items, info, m):
 def c08(tier):
     def body(s):
         s.functions.update(n for n in s.ctx.bodies if re.search(r'read_complex_content_node|import_extension_fields|import_sequence|find_node_by_xml_name|try_to_find_node', n))
-        fams = [F.x_chain(tier), F.x_chain(tier, decoy=True), F.x_cross(tier), F.x_cross3(tier)]
+        fams = [F.x_chain(tier), F.x_chain(tier, decoy=True), F.x_chain(tier, decoy='global'), F.x_cross(tier), F.x_cross3(tier), F.x_diamond(tier), F.x_samename(tier)]
         for sc, info in fams:
             scenario_check(s, sc, info, extension_oracle, classify=lambda c, p, i: (c.cls(p) if c.cls else ''))
     return run_e2('C08', tier, body, bounds='extension chains of depth 1..2 plus an empty extension, fan-out 2, in one file with %s declaration orders, with and without a decoy type '
-                  'whose local element/attribute names equal the base type names; base in another namespace and file with both declaration orders. Own content: '
+                  'whose local element/attribute names equal the base type names, and with global elements named like the base types (declared before and after them); base in another namespace and file with both declaration orders; a chain across three files; a diamond (two files importing and extending the same third file, both import orders); types with the same local name in two namespaces (derived type named like its foreign base; own base declared later while an imported type has its name). Own content: '
                   'sequence, sequence+choice, attributes inside xs:extension, attributes on the base. Outside: depth > 2, complexContent/restriction.' % ('all 24' if tier == 'thorough' else '6'))
 
 
@@ -1047,10 +1048,14 @@ def c10(tier):
         for sc_, info_ in shared:
             info_.file_of = {'CustomerType': 'customer.xsd', 'OrderType': 'order.xsd', 'Basket': 'main.xsd'}
             info_.expect_structs = ('CustomerType', 'OrderType', 'Basket')
-        for sc, info in [F.n_namespaces(tier), F.n_within(tier), (xr_sc, xr_info)] + shared:
+        # the target namespace has no prefix on the schema root; one is bound on a nested element (next to an imported namespace)
+        qn_sc, qn_info = F.q_nested(tier)
+        qn_info.file_of = {'Order': 'a.xsd', 'Note': 'a.xsd'}
+        qn_info.expect_structs = ('Order', 'Note')
+        for sc, info in [F.n_namespaces(tier), F.n_within(tier), (xr_sc, xr_info), (qn_sc, qn_info)] + shared:
             scenario_check(s, sc, info, namespace_oracle, classify=lambda c, p, i: (c.cls(p) if c.cls else ''))
     return run_e2('C10', tier, body, bounds='four namespace URIs (target of the start file, referenced-only root xmlns, target of an imported file, nested xmlns in the imported file), each symbolic over '
-                  '%d adversarial URIs (equal last segments, equal three-letter abbreviations, dots, dashes, trailing slash, URN, equal URIs). Outside: more than 4 namespaces, the 255-collision abort (C13).' % (8 if tier == 'thorough' else 5))
+                  '%d adversarial URIs (equal last segments, also in different letter case, equal three-letter abbreviations, dots, dashes, trailing slash, URN, equal URIs); a target namespace whose only prefix is bound on a nested element. Outside: more than 4 namespaces, the 255-collision abort (C13).' % (12 if tier == 'thorough' else 5))
 
 
 # ================================================================================================ C03 (annotation level)
@@ -2143,11 +2148,14 @@ def c13(tier):
         budget = 2 if tier == 'thorough' else 1
         from xmltree import build as _build, to_xml as _to_xml
         small = _to_xml(_build(F.wsdl_multi(1, multipart=True).tree()))
-        docs = [('types.xsd', {'types.xsd': C13_DOCS['types.xsd']}, 'types.xsd'), ('small.wsdl', {'small.wsdl': small}, 'small.wsdl')]
+        # a WSDL whose binding names body parts (parts=) and binds header parts, for the request and for the response
+        bound = _to_xml(F.w_out_hdr(tier)[0].docs['svc.wsdl'])
+        docs = [('types.xsd', {'types.xsd': C13_DOCS['types.xsd']}, 'types.xsd'), ('small.wsdl', {'small.wsdl': small}, 'small.wsdl'),
+                ('bound.wsdl', {'bound.wsdl': bound}, 'bound.wsdl')]
         if tier == 'thorough':
             docs.append(('all_emitters.wsdl', corpus_files('all_emitters.wsdl'), 'all_emitters.wsdl'))
         for name, files, start in docs:
-            budget = (2 if tier == 'thorough' and name != 'all_emitters.wsdl' else 1)
+            budget = (2 if tier == 'thorough' and name not in ('all_emitters.wsdl', 'bound.wsdl') else 1)
             doc, flags, sels, dom = F.departure_doc(files[start], budget=budget)
             fs = dict(files)
             fs[start] = doc
@@ -2174,9 +2182,23 @@ def c13(tier):
                 if key in seen:
                     continue
                 seen.add(key)
-                model = sc.solve(m)
-                if model is None:
+                # a witness with as few departures as the path allows (selectors the path never looked at stay at the original value)
+                zs = z3.Solver()
+                zs.add(*m.pc)
+                if zs.check() != z3.sat:
                     continue
+                for x in sels:
+                    zs.push()
+                    zs.add(x.var == 0)
+                    if zs.check() != z3.sat:
+                        zs.pop()
+                for b in flags:
+                    zs.push()
+                    zs.add(z3.Not(b))
+                    if zs.check() != z3.sat:
+                        zs.pop()
+                zs.check()
+                model = zs.model()
                 active = [str(b) for b in flags if z3.is_true(model.eval(b, model_completion=True))] + ['%s=%s' % (x.name, x.value_in(model)) for x in sels if x.value_in(model) != x.options[0]]
                 rc, txt, log_, cfiles = sc.native(ctx, model)
                 s.replays += 1
